@@ -348,3 +348,12 @@ def r20_6(ctx):
                 for b in stack:
                     b["defs"][b["branch"]].add(m.group(1))
     ctx.check("conditional blocks of the macro sources", n_blocks >= 20, ">= 20 blocks inspected", str(n_blocks), "Resources/Hexagon/Preprocessor/", nontrivial=False)
+
+
+def merged_list_is_private(ctx):
+    """patch_macros builds its result in a list it creates itself"""
+    idx = get_index(ctx.env)
+    fi = idx.func(f"{PP}.patch_macros")
+    appended = {U(n.func.value) for n in ast.walk(fi.node) if isinstance(n, ast.Call) and isinstance(n.func, ast.Attribute) and n.func.attr in ("append", "insert") and isinstance(n.func.value, (ast.Name, ast.Attribute))}
+    fresh = {U(n.targets[0]) for n in ast.walk(fi.node) if isinstance(n, ast.Assign) and (isinstance(n.value, ast.List) and not n.value.elts or (isinstance(n.value, ast.Call) and U(n.value.func) == "list" and not n.value.args))}
+    ctx.check("patch_macros appends only to lists created by this call", bool(appended) and appended <= fresh, "fresh [] / list()", f"appended to: {sorted(appended)}; fresh: {sorted(fresh)}", fn_where(idx, fi))
